@@ -58,25 +58,28 @@ type TunnelCfg struct {
 	Signals  []SigCfg `json:"signals"`
 	Interval uint64   `json:"interval"`
 	Balance  int64    `json:"balance"` // initial balance of the tunnel's fee payer
+	Deposit  int64    `json:"deposit"` // initial deposit by the creator (0: exactly the minimum deposit)
 }
 
 // Cfg is one configuration.
 type Cfg struct {
-	Name    string      `json:"name"`
-	Group   bool        `json:"group"`   // a bandtss current signing group exists (2-of-2)
-	InitDE  uint64      `json:"init_de"` // nonce pairs per member in the base state
-	Tunnels []TunnelCfg `json:"tunnels"`
-	Signals []string    `json:"signals"` // environment signals (index used in events)
-	Init    []string    `json:"init"`    // initial price token per signal
-	Tokens  [][]string  `json:"tokens"`  // price alphabet per signal: "m" missing | "<v>" available | "<v>n" not-ready | "<v>u" unknown-signal
-	Funds   []int64     `json:"funds"`   // Fund(feePayer, amount) alphabet
-	FundCap int64       `json:"fund_cap"`
-	DEAdd   uint64      `json:"de_add"` // SubmitDEs(member, k) event (0: none)
-	DECap   uint64      `json:"de_cap"`
-	Trigger bool        `json:"trigger"`
-	Toggle  bool        `json:"toggle"` // MsgActivate / MsgDeactivate by the creator
-	Dts     []int64     `json:"dts"`    // block time steps (seconds)
-	Depth   int         `json:"depth"`
+	Name     string      `json:"name"`
+	Group    bool        `json:"group"`   // a bandtss current signing group exists (2-of-2)
+	InitDE   uint64      `json:"init_de"` // nonce pairs per member in the base state
+	Tunnels  []TunnelCfg `json:"tunnels"`
+	Signals  []string    `json:"signals"` // environment signals (index used in events)
+	Init     []string    `json:"init"`    // initial price token per signal
+	Tokens   [][]string  `json:"tokens"`  // price alphabet per signal: "m" missing | "<v>" available | "<v>n" not-ready | "<v>u" unknown-signal
+	Funds    []int64     `json:"funds"`   // Fund(feePayer, amount) alphabet
+	FundCap  int64       `json:"fund_cap"`
+	DEAdd    uint64      `json:"de_add"` // SubmitDEs(member, k) event (0: none)
+	DECap    uint64      `json:"de_cap"`
+	Deposits []int64     `json:"deposits"` // MsgWithdrawFromTunnel / MsgDepositToTunnel(creator, amount) alphabet
+	DepCap   int64       `json:"dep_cap"`
+	Trigger  bool        `json:"trigger"`
+	Toggle   bool        `json:"toggle"` // MsgActivate / MsgDeactivate by the creator
+	Dts      []int64     `json:"dts"`    // block time steps (seconds)
+	Depth    int         `json:"depth"`
 }
 
 type spec struct {
@@ -119,6 +122,7 @@ type mTunnel struct {
 	Latest   map[string]mPrice // what the destination last received, by signal
 	LastFull int64             // time of the last full send
 	Bal      int64             // fee payer balance
+	Dep      int64             // total deposit (the creator is the only depositor)
 	Packets  []string          // digest of stored packets 1..Seq (a stored packet never changes)
 }
 
@@ -159,7 +163,7 @@ func (m *model) Key() string {
 		sb.WriteByte(',')
 	}
 	for _, t := range m.T {
-		fmt.Fprintf(&sb, "|%v:%d:%d:%d:", t.Active, t.Seq, t.LastFull, t.Bal)
+		fmt.Fprintf(&sb, "|%v:%d:%d:%d:%d:", t.Active, t.Seq, t.LastFull, t.Bal, t.Dep)
 		keys := make([]string, 0, len(t.Latest))
 		for k := range t.Latest {
 			keys = append(keys, k)
@@ -328,6 +332,10 @@ func (s *spec) Build(w *engine.World) (sdk.Context, engine.Model) {
 
 	s.ids, s.fp = nil, nil
 	for _, tc := range s.cfg.Tunnels {
+		dep := tc.Deposit
+		if dep == 0 {
+			dep = minDeposit
+		}
 		var sds []tunneltypes.SignalDeviation
 		for _, sg := range tc.Signals {
 			sds = append(sds, tunneltypes.SignalDeviation{SignalID: sg.ID, SoftDeviationBPS: sg.Soft, HardDeviationBPS: sg.Hard})
@@ -335,9 +343,9 @@ func (s *spec) Build(w *engine.World) (sdk.Context, engine.Model) {
 		var msg *tunneltypes.MsgCreateTunnel
 		var err error
 		if tc.Route == "ibc" {
-			msg, err = tunneltypes.NewMsgCreateIBCTunnel(sds, tc.Interval, coins(minDeposit), creator.Address.String())
+			msg, err = tunneltypes.NewMsgCreateIBCTunnel(sds, tc.Interval, coins(dep), creator.Address.String())
 		} else {
-			msg, err = tunneltypes.NewMsgCreateTSSTunnel(sds, tc.Interval, "chain-1", "0xc0ffee", feedstypes.ENCODER_FIXED_POINT_ABI, coins(minDeposit), creator.Address.String())
+			msg, err = tunneltypes.NewMsgCreateTSSTunnel(sds, tc.Interval, "chain-1", "0xc0ffee", feedstypes.ENCODER_FIXED_POINT_ABI, coins(dep), creator.Address.String())
 		}
 		if err != nil {
 			panic(err)
@@ -355,7 +363,7 @@ func (s *spec) Build(w *engine.World) (sdk.Context, engine.Model) {
 		tssh.Must(w.Tx(ctx, 0, tunneltypes.NewMsgActivate(id, creator.Address.String())), "activate")
 		s.ids = append(s.ids, id)
 		s.fp = append(s.fp, fp)
-		m.T = append(m.T, &mTunnel{Active: true, Latest: map[string]mPrice{}, Bal: tc.Balance})
+		m.T = append(m.T, &mTunnel{Active: true, Latest: map[string]mPrice{}, Bal: tc.Balance, Dep: dep})
 	}
 	m.TotalBase = k.GetTotalFees(ctx).TotalBasePacketFee.AmountOf(denom).Int64()
 	// self-check of the bank key decoder used by the differential oracle
@@ -428,6 +436,18 @@ func (s *spec) Enabled(w *engine.World, ctx sdk.Context, mm engine.Model, depth 
 		for i := range m.DE {
 			if ok("de", i) && m.DE[i]+s.cfg.DEAdd <= s.cfg.DECap {
 				evs = append(evs, fmt.Sprintf("de:%d:%d", i, s.cfg.DEAdd))
+			}
+		}
+	}
+	// deposit moves change whether a tunnel may be active; they do not commute with act/deact and are
+	// always enabled (like trig they start a new segment)
+	for ti, t := range m.T {
+		for _, a := range s.cfg.Deposits {
+			if a <= t.Dep {
+				evs = append(evs, fmt.Sprintf("wd:%d:%d", ti, a))
+			}
+			if t.Dep+a <= s.cfg.DepCap {
+				evs = append(evs, fmt.Sprintf("dep:%d:%d", ti, a))
 			}
 		}
 	}
@@ -561,7 +581,11 @@ func (s *spec) applySuccess(m *model, ti int, pl plan, now int64) {
 }
 
 // monitor compares every property-relevant projection of the stores with the model.
-func (s *spec) monitor(w *engine.World, ctx sdk.Context, m *model, produced map[int]bool, st *engine.StepResult, now int64) {
+//
+// The active-tunnel index is an internal of the implementation; it is compared with the reported
+// flag only at block boundaries, after the packet oracle has judged the block, so that a stale index
+// entry is first seen through what the statement is about (a packet for an inactive tunnel).
+func (s *spec) monitor(w *engine.World, ctx sdk.Context, m *model, produced map[int]bool, st *engine.StepResult, now int64, checkIndex bool) {
 	k := w.App.TunnelKeeper
 	active := map[uint64]bool{}
 	for _, id := range k.GetActiveTunnelIDs(ctx) {
@@ -577,8 +601,10 @@ func (s *spec) monitor(w *engine.World, ctx sdk.Context, m *model, produced map[
 		if tn.Sequence != t.Seq {
 			st.Violate("sequence-mismatch", "tunnel %d: stored sequence %d, %d packets produced", id, tn.Sequence, t.Seq)
 		}
-		if tn.IsActive != t.Active || active[id] != t.Active {
-			st.Violate("active-flag-mismatch", "tunnel %d: flag %v index %v model %v", id, tn.IsActive, active[id], t.Active)
+		if tn.IsActive != t.Active {
+			st.Violate("active-flag-mismatch", "tunnel %d: flag %v model %v (deposit %d, minimum %d)", id, tn.IsActive, t.Active, t.Dep, minDeposit)
+		} else if checkIndex && active[id] != t.Active {
+			st.Violate("active-index-disagrees-with-flag", "tunnel %d: flag %v, in end-block index %v", id, tn.IsActive, active[id])
 		}
 		if got := s.bal(w, ctx, s.fp[ti]); got != t.Bal {
 			if produced[ti] {
@@ -766,6 +792,39 @@ func (s *spec) Step(w *engine.World, ctx sdk.Context, mm engine.Model, ev string
 		}
 		m.Phase, _ = s.class(parts[0], ti)
 		st.Outcome = parts[0] + ":" + res.ErrName()
+	case "wd", "dep":
+		ti := atoi(parts[1])
+		t := m.T[ti]
+		amt, _ := strconv.ParseInt(parts[2], 10, 64)
+		var msg sdk.Msg = tunneltypes.NewMsgWithdrawFromTunnel(s.ids[ti], coins(amt), creator.Address.String())
+		if parts[0] == "dep" {
+			msg = tunneltypes.NewMsgDepositToTunnel(s.ids[ti], coins(amt), creator.Address.String())
+		}
+		res := w.Tx(ctx, 0, msg)
+		// acceptance of deposit moves is C17's subject; C08 needs their effect on activity: a tunnel
+		// whose total deposit falls below the minimum is no longer active (README: the deposit must
+		// meet the minimum for the tunnel to be active), a deposit never activates by itself
+		if !res.OK() {
+			panic(fmt.Sprintf("c08: %s rejected (%v) although the creator holds deposit %d", ev, res.Err, t.Dep))
+		}
+		class := "inactive"
+		if parts[0] == "wd" {
+			t.Dep -= amt
+			if t.Active {
+				class = "stays-active"
+				if t.Dep < minDeposit {
+					t.Active = false
+					class = "below-min-deactivates"
+				}
+			}
+		} else {
+			t.Dep += amt
+			if t.Active {
+				class = "active"
+			}
+		}
+		m.Phase = -1
+		st.Outcome = parts[0] + ":" + class
 	case "trig":
 		ti := atoi(parts[1])
 		t := m.T[ti]
@@ -1017,7 +1076,7 @@ func (s *spec) Step(w *engine.World, ctx sdk.Context, mm engine.Model, ev string
 			st.Violate("success-event-without-packet", "%v", evSeen)
 		}
 		s.explain(w, base, real, m, succ, deact, seqOf, &st)
-		s.monitor(w, real, m, produced, &st, now)
+		s.monitor(w, real, m, produced, &st, now, true)
 		if len(st.Violations) > 0 {
 			return ctx, st
 		}
@@ -1031,12 +1090,12 @@ func (s *spec) Step(w *engine.World, ctx sdk.Context, mm engine.Model, ev string
 		m.Phase = -1
 		st.Outcome = "block"
 		// begin-block must not touch what the property is about
-		s.monitor(w, ctx, m, nil, &st, now)
+		s.monitor(w, ctx, m, nil, &st, now, true)
 		return ctx, st
 	default:
 		panic("event " + ev)
 	}
-	s.monitor(w, ctx, m, produced, &st, now)
+	s.monitor(w, ctx, m, produced, &st, now, false)
 	return ctx, st
 }
 
@@ -1076,7 +1135,7 @@ func init() {
 	engine.Register(&engine.Check{
 		ID: "C08",
 		Run: func(r *engine.Run) {
-			r.Bound = "per configuration 1-2 active tunnels (TSS route on a real 2-of-2 signing group / TSS route without a group / IBC route without channel) x 2 signals, soft/hard in {(100,300),(300,300)} bps, interval in {2,4} s (min=2) or 3600 s; every sequence of <= depth events from {Price(signal, token) over per-signal alphabets drawn from {missing,0,100,101,102,103,105,120; available/not-ready}, Fund(feePayer, amount), SubmitDEs(member), Activate/Deactivate, Trigger, Block(dt in {1,2,4})}, modulo the order of independent environment writes inside one block segment; depth 5-6 (quick) / 6-8 (thorough)"
+			r.Bound = "per configuration 1-2 active tunnels (TSS route on a real 2-of-2 signing group / TSS route without a group / IBC route without channel) x 2 signals, soft/hard in {(100,300),(300,300)} bps, interval in {2,4} s (min=2) or 3600 s; every sequence of <= depth events from {Price(signal, token) over per-signal alphabets drawn from {missing,0,100,101,102,103,105,120; available/not-ready}, Fund(feePayer, amount), SubmitDEs(member), Activate/Deactivate, Withdraw/Deposit(creator, amount; keeping the deposit >= min or taking it below), Trigger, Block(dt in {1,2,4})}, modulo the order of independent environment writes inside one block segment; depth 5-6 (quick) / 6-8 (thorough)"
 			r.Assumptions = []string{
 				"prices are environment input written with the feeds keeper while the feeds current-feed list is empty (the feeds end-blocker then leaves Price records alone; no current-feeds update height falls into the explored range)",
 				"TSS route: one real 2-of-2 group (n = t, so every signing consumes one nonce pair of every member); signings created by packets are never signed and do not expire within the explored depth (SigningPeriod 100 blocks)",
@@ -1087,7 +1146,7 @@ func init() {
 				"Tx seam = ValidateBasic + message-router handler in a cache context (ante chain not executed here; see C02)",
 			}
 			r.Required = []string{"packet:interval", "packet:hard-deviation", "packet:soft-rider", "packet:partial", "not-due", "not-due:soft-only",
-				"deactivated:short-funds", "inactive-and-due:no-packet",
+				"deactivated:short-funds", "inactive-and-due:no-packet", "wd:stays-active", "wd:below-min-deactivates", "wd:inactive", "dep:inactive", "dep:active",
 				"route-failure:members-out-of-nonces", "route-failure:no-signing-group", "route-failure:ibc-no-channel",
 				"trigger:packet", "trigger-rejected:inactive:tss", "trigger-rejected:short-funds:tss",
 				"trigger-rejected:route-fails:tss", "trigger-rejected:route-fails:tss-no-group", "trigger-rejected:route-fails:ibc-no-channel"}
